@@ -2,7 +2,8 @@
 Decided statically: the representation invariant (ceil(len/32) words, padding bits zero, base i in word i/32 lane
 31-i%32) is established by every constructor and preserved by every writer — bit-vector lemmas for new / with_capacity /
 blank(n) / clear / push at every length 0..66 / extend from lengths {0,1,31,32,33} by 0..70 bases / from_bytes /
-set_mut / get at every position / rc and reverse / to_bytes / ndiffs, with the string abstract and only lengths and
+set_mut / get at every position / rc and reverse / to_bytes / to_ascii_vec / Display / Debug (letter i = table(base i), the
+tables themselves being C16.1) / push_bytes (packed 2-bit runs) / ndiffs, with the string abstract and only lengths and
 positions partitioned; the writers of (storage, len) are enumerated from MIR and each is covered; the fields are private;
 Eq/Ord/Hash are derived with storage before len (lexicographic with a proper prefix first, given the invariant);
 PackedDnaStringSet::get returns the stored (start, length) forward view and add keeps its arrays in lockstep."""
@@ -15,6 +16,7 @@ DS = "dna_string::DnaString"
 def run(F, rep):
     rep.engines.update(["E2-BV", "E2-DT", "E1"])
     lemmas.dnastring_lemmas(F, rep, which={"new", "get", "push", "extend", "rc", "render", "ndiffs"})
+    lemmas.dnastring_render_lemmas(F, rep, "C14.3")
     structural.check_derives(F, rep, "C14.4", DS, ["std::cmp::PartialEq", "std::cmp::Eq", "std::hash::Hash", "std::cmp::PartialOrd", "std::cmp::Ord"])
     fns = structural.field_names(F, DS)
     if fns == ["storage", "len"]:
